@@ -547,6 +547,65 @@ func loopOverLen(fn *ssa.Function, pred func(sliceOrigins []string) bool) (heade
 	return nil, nil, nil
 }
 
+// loopCountdownFromLen: the mirror image of loopOverLen - a loop "for r := len(x); r > 0; r--":
+// the counter starts at len(x), the loop continues while it is positive and every iteration takes
+// one off, so the body runs at most len(x) times.
+func loopCountdownFromLen(fn *ssa.Function, pred func(sliceOrigins []string) bool) (header *ssa.BasicBlock) {
+	for _, f := range fnsDeep(fn) {
+		for _, b := range f.Blocks {
+			iff := lastIf(b)
+			if iff == nil {
+				continue
+			}
+			p, ok := partitionOf(iff.Cond)
+			if !ok || p.cmpv == nil {
+				continue
+			}
+			// counter > 0 (any spelling): a single atom, lower part <= 0
+			var phi *ssa.Phi
+			for _, v := range []ssa.Value{p.cmpv.X, p.cmpv.Y} {
+				if q, ok := stripConv(v).(*ssa.Phi); ok {
+					phi = q
+				}
+			}
+			if phi == nil || len(p.atoms) != 1 || p.t != 0 {
+				continue
+			}
+			fromLen, dec := false, false
+			for _, e := range phi.Edges {
+				if call := lenCallOf(e); call != nil && pred(origins(call.Call.Args[0])) {
+					fromLen = true
+				} else if bo, ok := e.(*ssa.BinOp); ok && bo.Op == token.SUB && bo.X == ssa.Value(phi) {
+					if k, ok := bo.Y.(*ssa.Const); ok && k.Int64() == 1 {
+						dec = true
+					}
+				}
+			}
+			if !fromLen || !dec {
+				continue
+			}
+			// the positive side continues into the loop
+			body := b.Succs[1]
+			if (p.upper == p.truth) == true {
+				body = b.Succs[0]
+			}
+			for a, n := range p.atoms {
+				_ = a
+				if n < 0 { // canonical sign flipped: the upper part of -counter is counter <= ...
+					body = b.Succs[0]
+					if (p.upper == p.truth) == true {
+						body = b.Succs[1]
+					}
+				}
+			}
+			if reachableFrom(body, nil)[b] {
+				return b
+			}
+		}
+	}
+	return nil
+}
+
 // fnsDeep: fn and the new helper functions it calls (transitively).
 func fnsDeep(fn *ssa.Function) []*ssa.Function {
 	out := []*ssa.Function{fn}
@@ -683,7 +742,15 @@ func bodyMustPass(header, body *ssa.BasicBlock, edges map[edge]bool) bool {
 }
 
 // edgesWhere collects, over the blocks of fn, the out-edges selected by f for each If.
-func edgesWhere(fn *ssa.Function, f acceptFn) map[edge]bool { return acceptingEdges(fn, f) }
+func edgesWhere(fn *ssa.Function, f acceptFn) map[edge]bool {
+	out := map[edge]bool{}
+	for _, g := range fnsDeep(fn) {
+		for e := range acceptingEdges(g, f) {
+			out[e] = true
+		}
+	}
+	return out
+}
 
 func hasAll(os []string, want ...string) bool {
 	for _, w := range want {
